@@ -143,8 +143,8 @@ SHAPES = {
     'C06': ['processAuthorizedRequest', 'handleCallback', 'refreshToken'],
     'C08': ['ServeHTTP', 'isUserAuthenticated', 'refreshToken'],
     'C10': ['processAuthorizedRequest'],
-    'C11': ['ServeHTTP', 'handleLogout'],
-    'C15': ['handleCallback', 'handleLogout', 'defaultInitiateAuthentication'],
+    'C11': ['ServeHTTP', 'handleLogout', 'determineScheme', 'determineHost'],
+    'C15': ['handleCallback', 'handleLogout', 'defaultInitiateAuthentication', 'determineScheme', 'determineHost'],
     'C17': ['ServeHTTP', 'handleExpiredToken', 'defaultInitiateAuthentication'],
     'C16': ['sendErrorResponse'],
     'C20': ['ServeHTTP'],
